@@ -55,6 +55,13 @@ LISTS = {
 }
 
 
+def concat(dst, srcs):
+    with open(dst, "w") as out:
+        for s in srcs:
+            with open(s) as f:
+                out.write(f.read())
+
+
 def judge(ctx, tpath, what):
     res = ctx.validate("PickFirstTrace", "PickFirstTrace.cfg", tpath)
     if res["accepted"]:
@@ -68,8 +75,9 @@ def judge(ctx, tpath, what):
         if res["accepted"]:
             return
         idx, seg = ctx.trace_segment(tpath, res["line"])
-    ctx.violation("%s: clause %s at trace line %d (behaviour %d)" % (what, res["clause"], res["line"], idx),
-                  {"clause": res["clause"], "segment": seg[:200]})
+    ln = open(tpath).read().splitlines()[res["line"] - 1]
+    ctx.violation("%s: clause %s at trace line %d (behaviour %d): %s" % (what, res["clause"], res["line"], idx, ln[:300]),
+                  {"clause": res["clause"], "line": ln, "segment": seg[:200]})
 
 
 def run(ctx):
@@ -79,18 +87,17 @@ def run(ctx):
     ctx.neg("PickFirstMC", "PickFirstNeg.cfg", expect="I_StickyTF", workers=2)
     ctx.neg("PickFirstMC", "PickFirstNeg2.cfg", expect="I_OthersShutdown", workers=2)
     binary = ctx.go_build("balancer/pickfirst", name="c34", only=r"zz_verif_c34_")
-    # reference-oracle sub-check of the address pre-processing
+    # reference-oracle sub-check of the address pre-processing: every list of <= n addresses
     ppath = os.path.join(ctx.run, "trace-pre.ndjson")
     n = ctx.pick(4, 5)
     ctx.driver(binary, "TestVerifC34Preprocess", {"VERIF_OUT": ppath, "VERIF_N": n})
-    res = ctx.validate("PickFirstTrace", "PickFirstTrace.cfg", ppath, count_resets=False)
-    ctx.count({"preprocess_lists_up_to": n}, n=res["length"] - 1)
-    if not res["accepted"]:
-        ln = open(ppath).read().splitlines()[res["line"] - 1]
-        ctx.violation("address pre-processing: clause %s for %s" % (res["clause"], ln), {"clause": res["clause"], "line": ln})
+    npre = sum(1 for _ in open(ppath)) - 1
+    ctx.count({"preprocess_lists_up_to": n}, n=npre)
     # behaviours from the state graph (of the specification that follows the code, Quirk = 1)
     behs = []
-    for cfg, lists, lim in (("PickFirstGen.cfg", "ListsA", ctx.pick(700, 8000)), ("PickFirstGenH.cfg", "ListsB", ctx.pick(400, 6000))):
+    gens = (("PickFirstGen.cfg", "ListsA", ctx.pick(600, 8000)),) if ctx.quick() else \
+        (("PickFirstGen.cfg", "ListsA", 8000), ("PickFirstGenH.cfg", "ListsB", 6000))
+    for cfg, lists, lim in gens:
         g = ctx.dump_graph("PickFirstMC", cfg)
         bs = ctx.edge_cover(g, step_of, limit=lim)
         for b in bs:
@@ -105,13 +112,15 @@ def run(ctx):
     for b in behs:
         ctx.count(b, nontrivial=len(b) >= 2)
     ctx.sample(behs[len(behs) // 2])
-    judge(ctx, tpath, "replay of TLC behaviours")
     tpath2 = os.path.join(ctx.run, "trace-random.ndjson")
     n = ctx.pick(150, 4000)
     ctx.driver(binary, "TestVerifC34Random", {"VERIF_OUT": tpath2, "VERIF_N": n})
     ctx.count({"random_runs": n, "seed": ctx.seed}, n=n)
-    judge(ctx, tpath2, "random input sequences seed %d" % ctx.seed)
-    ctx.cov["rule"] = ("behaviours = edge cover of the TLC state graphs of PickFirst.tla (health listener off / on), executed step by "
+    # one validation over: pre-processing oracle, replayed TLC behaviours, random sequences
+    tall = os.path.join(ctx.run, "trace-all.ndjson")
+    concat(tall, [ppath, tpath, tpath2])
+    judge(ctx, tall, "pre-processing oracle + replayed TLC behaviours + random input sequences (seed %d)" % ctx.seed)
+    ctx.cov["rule"] = ("behaviours = edge cover of the TLC state graphs of PickFirst.tla (health listener off and on), executed step by "
                        "step on the real pick_first policy (lists given as Addresses or as Endpoints); non-trivial = >= 2 steps; "
-                       "distinct by step sequence; plus seeded random input sequences of 10-60 steps over up to 7 addresses; plus "
-                       "every address list of bounded length for the pre-processing oracle")
+                       "distinct by step sequence; plus seeded random input sequences of 10-60 steps over up to 7 addresses (health "
+                       "listener on in a third of them); plus every address list of bounded length for the pre-processing oracle")
